@@ -2,8 +2,10 @@ package c15
 
 import (
 	"context"
+	"errors"
 	"fmt"
 	"os"
+	"path/filepath"
 	"sort"
 	"strings"
 	"sync/atomic"
@@ -13,6 +15,8 @@ import (
 	"github.com/inbucket/inbucket/v3/pkg/msghub"
 	"github.com/inbucket/inbucket/v3/pkg/policy"
 	"github.com/inbucket/inbucket/v3/pkg/rest"
+	"github.com/inbucket/inbucket/v3/pkg/storage"
+	"github.com/inbucket/inbucket/v3/pkg/stringutil"
 
 	"verifharness/internal/fw"
 	"verifharness/internal/sut"
@@ -29,6 +33,26 @@ import (
 //
 // Quiescence is logical: a sentinel message is delivered and removed, and the witness listener
 // is read until both sentinel events have come out (the watchdog only bounds the wait).
+//
+// Added after seeded change C15-7 (stored events collected during a delivery and announced only
+// once every recipient has its copy - never, when a later recipient's mailbox fails): a delivery
+// is one StoreManager.Deliver call for ONE OR SEVERAL recipients, and a recipient's mailbox may be
+// faulty while it runs.  Until then every delivery had one recipient and no store operation ever
+// failed, so "what was stored before the failure is still announced" was never exercised.  The
+// faults are real on the file back-end (a regular file where the mailbox's first-level hash
+// directory has to be created; index.gob replaced by garbage; a directory where the index's
+// temporary file has to be created) and, on the memory back-end (which has no failure of its own
+// to provoke), a store wrapper that refuses AddMessage for one mailbox.  The fault is planted
+// before the Deliver call and repaired right after it, the faulty recipient is the first, a
+// middle or (mostly) the last one.  The oracle is unchanged: what the operation owes the monitors
+// is the difference of the store's listings of the recipients' mailboxes before and after it -
+// whatever came to exist is announced stored exactly once, whatever ceased to exist deleted,
+// whether Deliver returned an error or not.
+//
+// Added after seeded change C15-8 (listener queue no longer sized by the history): stream
+// "e2ebig" runs the same histories on the memory back-end with history lengths 700 and 1000 and
+// more than 500 messages stored and not removed, and every case ends with late joiners of both
+// API versions, unfiltered and filtered, whose queue is read only after the join.
 
 type e2eOp struct {
 	what string
@@ -51,6 +75,87 @@ type e2eRun struct {
 	nDel  int
 	nCap  int
 	nFast int
+
+	dir     string         // file back-end: the store's path
+	refuser *refusingStore // memory back-end: the injected storage fault
+	nMulti  int            // deliveries with two or more recipients
+	nRcpt   int            // their recipients
+	nFault  int            // deliveries during which a recipient's mailbox was faulty and Deliver failed
+	nPart   int            // ... of which at least one copy had been stored before the failure
+	nNoBite int            // a fault was planted but Deliver succeeded
+	faults  map[string]int // per kind
+}
+
+// e2eBoxes are the recipients of multi-recipient deliveries (a superset of mailboxes).
+var e2eBoxes = []string{"alpha", "beta", "gamma", "delta", "omega", "sigma"}
+
+// refusingStore is the storage fault of the memory back-end: AddMessage for one mailbox fails.
+type refusingStore struct {
+	storage.Store
+	refuse string
+}
+
+var errRefused = errors.New("c15 harness: injected storage fault")
+
+func (s *refusingStore) AddMessage(m storage.Message) (string, error) {
+	if s.refuse != "" && m.Mailbox() == s.refuse {
+		return "", errRefused
+	}
+	return s.Store.AddMessage(m)
+}
+
+// plant makes mailbox mb faulty and returns the kind of fault and the function that repairs it;
+// kind is "" when no fault applies to the mailbox's present state.
+func (x *e2eRun) plant(mb string, r *fw.Rand) (kind string, repair func()) {
+	if x.dir == "" {
+		x.refuser.refuse = mb
+		return "refused", func() { x.refuser.refuse = "" }
+	}
+	h := stringutil.HashMailboxName(mb)
+	level1 := filepath.Join(x.dir, "mail", h[0:3])
+	mbDir := filepath.Join(level1, h[0:6], h)
+	index := filepath.Join(mbDir, "index.gob")
+	var kinds []string
+	if _, err := os.Lstat(level1); err != nil && len(x.live[mb]) == 0 {
+		kinds = append(kinds, "enotdir")
+	}
+	if len(x.live[mb]) > 0 {
+		kinds = append(kinds, "garbage-index")
+		// Below the cap only: at the cap the store first evicts the oldest message, and what an
+		// eviction whose index update fails owes anybody is not this property's business.
+		if x.cap == 0 || len(x.live[mb]) < x.cap {
+			kinds = append(kinds, "index-tmp-is-dir")
+		}
+	}
+	if len(kinds) == 0 {
+		return "", nil
+	}
+	switch kind = r.Pick(kinds); kind {
+	case "enotdir":
+		if err := os.WriteFile(level1, []byte("not a directory"), 0o600); err != nil {
+			return "", nil
+		}
+		return kind, func() { _ = os.Remove(level1) }
+	case "garbage-index":
+		saved, err := os.ReadFile(index)
+		if err != nil {
+			return "", nil
+		}
+		if err := os.WriteFile(index, []byte("\x07garbage, not a gob stream"), 0o600); err != nil {
+			return "", nil
+		}
+		return kind, func() {
+			if err := os.WriteFile(index, saved, 0o600); err != nil {
+				panic(err)
+			}
+		}
+	default:
+		tmp := index + ".tmp"
+		if err := os.Mkdir(tmp, 0o700); err != nil {
+			return "", nil
+		}
+		return kind, func() { _ = os.Remove(tmp) }
+	}
 }
 
 const sentinelBox = "zsentinel"
@@ -67,52 +172,108 @@ func (x *e2eRun) ids(mb string) ([]string, error) {
 	return out, nil
 }
 
-// deliver stores one message and derives the events owed from what the store lists afterwards.
+// deliver stores one message for one recipient.
 func (x *e2eRun) deliver(mb string) (id string, ok bool) {
-	rc, err := x.env.Policy.NewRecipient(mb + "@inbucket.test")
-	if err != nil {
-		panic(err)
+	ids, ok := x.deliverMany([]string{mb}, -1, nil)
+	if !ok {
+		return "", false
+	}
+	return ids[0], true
+}
+
+// deliverMany is one StoreManager.Deliver call for the given (distinct) mailboxes; with
+// faultAt >= 0 the mailbox of that recipient is made faulty for the duration of the call.  The
+// events owed are derived from what the store lists afterwards (the fault repaired).  fresh has
+// the new message of each recipient ("" if it got none).
+func (x *e2eRun) deliverMany(mbs []string, faultAt int, r *fw.Rand) (fresh []string, ok bool) {
+	var rcpts []*policy.Recipient
+	to := make([]string, len(mbs))
+	for i, mb := range mbs {
+		rc, err := x.env.Policy.NewRecipient(mb + "@inbucket.test")
+		if err != nil {
+			panic(err)
+		}
+		rcpts = append(rcpts, rc)
+		to[i] = mb + "@inbucket.test"
+	}
+	kind := ""
+	var repair func()
+	if faultAt >= 0 {
+		kind, repair = x.plant(mbs[faultAt], r)
 	}
 	subj := fmt.Sprintf("e2e %d", len(x.ops))
-	err = x.env.Manager.Deliver(x.orig, []*policy.Recipient{rc}, "Received: from c15.test", []byte("Subject: "+subj+"\r\n\r\nbody\r\n"))
-	if err != nil {
-		x.c.Inconclusive(fmt.Sprintf("%s: Deliver to %q failed: %v", x.descr, mb, err))
-		return "", false
+	err := x.env.Manager.Deliver(x.orig, rcpts, "Received: from c15.test",
+		[]byte("To: "+strings.Join(to, ", ")+"\r\nSubject: "+subj+"\r\n\r\nbody\r\n"))
+	if repair != nil {
+		repair()
 	}
-	after, err := x.ids(mb)
-	if err != nil {
-		x.c.Inconclusive(fmt.Sprintf("%s: GetMessages(%q): %v", x.descr, mb, err))
-		return "", false
+	what := "deliver " + strings.Join(mbs, ",")
+	if kind != "" {
+		what += fmt.Sprintf(" (mailbox %s faulty: %s; Deliver returned %v)", mbs[faultAt], kind, err)
 	}
-	before := x.live[mb]
-	was := map[string]bool{}
-	for _, b := range before {
-		was[b] = true
+	if err != nil && kind == "" {
+		x.c.Inconclusive(fmt.Sprintf("%s: Deliver to %v failed: %v", x.descr, mbs, err))
+		return nil, false
 	}
-	is := map[string]bool{}
-	var fresh []string
-	for _, a := range after {
-		is[a] = true
-		if !was[a] {
-			fresh = append(fresh, a)
+	op := e2eOp{what: what}
+	fresh = make([]string, len(mbs))
+	after := map[string][]string{}
+	stored := 0
+	for i, mb := range mbs {
+		a, lerr := x.ids(mb)
+		if lerr != nil {
+			x.c.Inconclusive(fmt.Sprintf("%s: GetMessages(%q): %v", x.descr, mb, lerr))
+			return nil, false
+		}
+		after[mb] = a
+		before := x.live[mb]
+		was := map[string]bool{}
+		for _, b := range before {
+			was[b] = true
+		}
+		is := map[string]bool{}
+		n := 0
+		for _, id := range a {
+			is[id] = true
+			if !was[id] {
+				n++
+				fresh[i] = id
+				op.exp = append(op.exp, ev{MB: mb, ID: id})
+			}
+		}
+		if n > 1 || (n != 1 && err == nil) {
+			// Not this property's business (C07/C08 judge the store); without a unique new id the
+			// history cannot be interpreted.
+			x.c.Inconclusive(fmt.Sprintf("%s: after %s (error %v) mailbox %q lists %v, before %v: no unique new message", x.descr, what, err, mb, a, before))
+			return nil, false
+		}
+		stored += n
+		for _, b := range before {
+			if !is[b] {
+				op.exp = append(op.exp, ev{Del: true, MB: mb, ID: b})
+				x.nCap++
+			}
 		}
 	}
-	if len(fresh) != 1 {
-		// Not this property's business (C07/C08 judge the store); without a unique new id the
-		// history cannot be interpreted.
-		x.c.Inconclusive(fmt.Sprintf("%s: after a delivery mailbox %q lists %v, before %v: no unique new message", x.descr, mb, after, before))
-		return "", false
+	for mb, a := range after {
+		x.live[mb] = a
 	}
-	op := e2eOp{what: "deliver " + mb, exp: []ev{{MB: mb, ID: fresh[0]}}}
-	for _, b := range before {
-		if !is[b] {
-			op.exp = append(op.exp, ev{Del: true, MB: mb, ID: b})
-			x.nCap++
-		}
-	}
-	x.live[mb] = after
 	x.ops = append(x.ops, op)
-	return fresh[0], true
+	if len(mbs) > 1 {
+		x.nMulti++
+		x.nRcpt += len(mbs)
+	}
+	switch {
+	case kind != "" && err != nil:
+		x.nFault++
+		x.faults[kind]++
+		if stored > 0 {
+			x.nPart++
+		}
+	case kind != "":
+		x.nNoBite++
+	}
+	return fresh, true
 }
 
 func (x *e2eRun) remove(mb, id string) bool {
@@ -270,11 +431,29 @@ func e2eCase(c *fw.Ctx, idx int, r *fw.Rand) {
 	backend := []string{"mem", "file"}[idx%2]
 	capN := []int{0, 1, 2, 3}[(idx/2)%4]
 	n := []int{1, 3, 10, 30}[(idx/8)%4]
+	e2eHistory(c, r, "e2e", backend, capN, n, 0)
+}
+
+// e2eBigCase (added after seeded change C15-8): the same histories with a history length above
+// 500 and more than 500 messages stored and not removed before the random part begins.  Memory
+// back-end (the file store rewrites a mailbox's index on every change), no mailbox cap (it would
+// bound what can be retained).
+func e2eBigCase(c *fw.Ctx, idx int, r *fw.Rand) {
+	n := []int{700, 1000}[idx%2]
+	prefill := r.Range(650, 760) // fills and wraps the ring of 700
+	if n == 1000 {
+		prefill = r.Range(620, 1080) // partly filled ... wrapped
+	}
+	e2eHistory(c, r, "e2ebig", "mem", 0, n, prefill)
+}
+
+func e2eHistory(c *fw.Ctx, r *fw.Rand, stream, backend string, capN, n, prefill int) {
 	conf := sut.DefaultConf()
 	conf.Storage.MailboxMsgCap = capN
 	conf.Web.MonitorHistory = n
+	dir := ""
 	if backend == "file" {
-		dir := c.TempDir("c15e2e")
+		dir = c.TempDir("c15e2e")
 		defer os.RemoveAll(dir)
 		conf.Storage.Type = "file"
 		conf.Storage.Params = map[string]string{"path": dir}
@@ -292,8 +471,12 @@ func e2eCase(c *fw.Ctx, idx int, r *fw.Rand) {
 	if err != nil {
 		panic(err)
 	}
-	x := &e2eRun{c: c, env: env, hub: hub, orig: orig, cap: capN, live: map[string][]string{},
-		descr: fmt.Sprintf("e2e/%s/cap%d/history%d", backend, capN, n)}
+	x := &e2eRun{c: c, env: env, hub: hub, orig: orig, cap: capN, live: map[string][]string{}, dir: dir, faults: map[string]int{},
+		descr: fmt.Sprintf("%s/%s/cap%d/history%d", stream, backend, capN, n)}
+	if backend == "mem" {
+		x.refuser = &refusingStore{Store: env.Store}
+		env.Manager.Store = x.refuser
+	}
 	x.stage.Store("start")
 	x.wit = rest.VerifNewListenerV2(hub, "")
 	defer x.wit.Close()
@@ -318,14 +501,46 @@ func e2eCase(c *fw.Ctx, idx int, r *fw.Rand) {
 			}
 		}
 	}
+	// several recipients, distinct mailboxes; with a fault the faulty one is mostly the last
+	multi := func(faulty bool) bool {
+		k := r.Range(2, 4)
+		mbs := make([]string, 0, k)
+		for _, j := range r.Perm(len(e2eBoxes))[:k] {
+			mbs = append(mbs, e2eBoxes[j])
+		}
+		at := -1
+		if faulty {
+			switch f := r.Intn(10); {
+			case f < 6:
+				at = k - 1
+			case f < 9:
+				at = r.Range(1, k-1)
+			default:
+				at = 0
+			}
+		}
+		_, ok := x.deliverMany(mbs, at, r)
+		return ok
+	}
 
-	nops := r.Range(8, 36)
+	nops := prefill + r.Range(8, 36)
 	sinceQ := 0
 	for i := 0; i < nops; i++ {
 		mb := r.Pick(mailboxes)
 		x.stage.Store("operation")
 		okOp := true
-		switch k := r.Intn(10); {
+		k := r.Intn(13)
+		if i < prefill {
+			// the retained history is built up: deliveries (a fifth of them to several recipients,
+			// some of those meeting a fault), a few removals; mailbox "alpha" gets most of them, so
+			// that one filtered late joiner's share is large and the others' small
+			mb = r.Pick(e2eBoxes)
+			if r.Chance(7, 10) {
+				mb = "alpha"
+			}
+			k = []int{0, 0, 0, 0, 0, 0, 0, 0, 0, 0, 0, 0, 0, 0, 10, 10, 12, 12, 12, 7}[r.Intn(20)]
+		}
+		switch {
 		case k < 5:
 			_, okOp = x.deliver(mb)
 		case k < 7:
@@ -339,13 +554,25 @@ func e2eCase(c *fw.Ctx, idx int, r *fw.Rand) {
 			if l := x.live[mb]; len(l) > 0 {
 				okOp = x.remove(mb, l[r.Intn(len(l))])
 			}
-		default:
+		case k < 10:
+			if prefill > 0 && mb == "alpha" {
+				mb = "gamma" // the big mailbox is spared, so that more than 500 messages stay retained
+			}
 			okOp = x.purge(mb)
+		case k < 11:
+			okOp = multi(false)
+		default:
+			okOp = multi(true)
 		}
 		if !okOp {
 			return
 		}
 		sinceQ++
+		if i < prefill && sinceQ < 40 {
+			// while the history is built up: a quiescent point every 40 operations (at most 4 events
+			// each, far below any listener's queue), as every sentinel takes a place in the history
+			continue
+		}
 		if sinceQ >= 12 || r.Chance(1, 6) {
 			if !x.quiesce() {
 				return
@@ -376,45 +603,84 @@ func e2eCase(c *fw.Ctx, idx int, r *fw.Rand) {
 			return
 		}
 	}
-	// A late joiner: the retained history of the stream, and nothing the store no longer holds.
+	// Late joiners: the retained history of the stream, and nothing the store no longer holds.
+	// Their queues are read only after the join (the hub replays the history in one go, and the
+	// socket writer that empties the queue is a goroutine that may not have started by then).
 	m := mhub{n: n}
 	for _, e := range x.got {
 		m.apply(e)
 	}
-	want := m.retained()
-	late := rest.VerifNewListenerV2(hub, "")
-	defer late.Close()
-	hub.Sync()
-	var hist []ev
-	for {
-		ve, got, _ := late.TryNext()
-		if !got {
-			break
+	retained := m.retained()
+	var replayed, maxReplay int
+	for _, lj := range []struct {
+		v      int
+		filter string
+	}{{2, ""}, {1, ""}, {2, "alpha"}, {1, "beta"}, {2, "sigma"}} {
+		var want []ev
+		for _, e := range retained {
+			if lj.filter == "" || lj.filter == e.MB {
+				want = append(want, e)
+			}
 		}
-		hist = append(hist, ev{Del: ve.Deleted, MB: ve.Mailbox, ID: ve.ID})
-	}
-	for _, h := range hist {
-		held := false
-		for _, id := range x.live[h.MB] {
-			held = held || id == h.ID
+		var late rest.VerifListener
+		if lj.v == 1 {
+			late = rest.VerifNewListenerV1(hub, lj.filter)
+		} else {
+			late = rest.VerifNewListenerV2(hub, lj.filter)
 		}
-		if !h.Del && !held {
-			c.Violation("C15:e2e:history-replays-deleted-message", fmt.Sprintf("%s: a monitor joining at a quiescent point is replayed %v, which the store no longer holds (mailbox lists %v)", x.descr, h, x.live[h.MB]),
-				map[string]any{"history": evStrings(hist, 100), "witness_stream": evStrings(x.got, 300)})
+		hub.Sync()
+		dropped := doneClosed(late)
+		var hist []ev
+		for {
+			ve, got, _ := late.TryNext()
+			if !got {
+				break
+			}
+			hist = append(hist, ev{Del: ve.Deleted, MB: ve.Mailbox, ID: ve.ID})
+		}
+		late.Close()
+		who := fmt.Sprintf("a v%d monitor (filter %q) joining at a quiescent point", lj.v, lj.filter)
+		for _, h := range hist {
+			held := false
+			for _, id := range x.live[h.MB] {
+				held = held || id == h.ID
+			}
+			if !h.Del && !held {
+				c.Violation("C15:e2e:history-replays-deleted-message", fmt.Sprintf("%s: %s is replayed %v, which the store no longer holds (mailbox lists %v)", x.descr, who, h, x.live[h.MB]),
+					map[string]any{"history": evStrings(hist, 100), "witness_stream": evStrings(x.got, 300)})
+				return
+			}
+		}
+		if !eqEv(hist, want) {
+			c.Violation("C15:e2e:history-replay", fmt.Sprintf("%s: %s is replayed %d events %v (listener shut down: %v); the last %d stored messages not deleted since, for its filter, are %d: %v",
+				x.descr, who, len(hist), evStrings(hist, 40), dropped, n, len(want), evStrings(want, 40)),
+				map[string]any{"witness_stream": evStrings(x.got, 300)})
 			return
 		}
+		replayed += len(hist)
+		maxReplay = maxInt(maxReplay, len(hist))
 	}
-	if !eqEv(hist, want) {
-		c.Violation("C15:e2e:history-replay", fmt.Sprintf("%s: a monitor joining at a quiescent point is replayed %v; the last %d stored messages not deleted since are %v", x.descr, evStrings(hist, 40), n, evStrings(want, 40)),
-			map[string]any{"witness_stream": evStrings(x.got, 300)})
-		return
+	c.Count(stream+"_histories", 1)
+	c.Count(stream+"_events_at_witness", int64(len(x.got)))
+	c.Count(stream+"_deleted_events_owed", int64(x.nDel))
+	c.Count(stream+"_cap_evictions", int64(x.nCap))
+	c.Count(stream+"_remove_straight_after_delivery", int64(x.nFast))
+	c.Count(stream+"_history_entries_replayed", int64(replayed))
+	c.Max("max_"+stream+"_history_replayed_to_one_listener", int64(maxReplay))
+	if maxReplay > 500 {
+		c.Count(stream+"_late_joiners_replayed_over_500", 1)
 	}
-	c.Count("e2e_histories", 1)
-	c.Count("e2e_events_at_witness", int64(len(x.got)))
-	c.Count("e2e_deleted_events_owed", int64(x.nDel))
-	c.Count("e2e_cap_evictions", int64(x.nCap))
-	c.Count("e2e_remove_straight_after_delivery", int64(x.nFast))
-	c.Count("e2e_history_entries_replayed", int64(len(hist)))
+	c.Count(stream+"_multi_recipient_deliveries", int64(x.nMulti))
+	c.Count(stream+"_multi_recipient_recipients", int64(x.nRcpt))
+	c.Count(stream+"_deliveries_failed_by_fault", int64(x.nFault))
+	c.Count(stream+"_partial_deliveries", int64(x.nPart))
+	c.Count(stream+"_fault_did_not_bite", int64(x.nNoBite))
+	fk := []string{}
+	for k, v := range x.faults {
+		c.Count(stream+"_fault_"+k, int64(v))
+		fk = append(fk, k)
+	}
+	sort.Strings(fk)
 	keys := []string{}
 	for mb, l := range x.live {
 		if len(l) > 0 {
@@ -422,5 +688,5 @@ func e2eCase(c *fw.Ctx, idx int, r *fw.Rand) {
 		}
 	}
 	sort.Strings(keys)
-	c.NonTrivial(fmt.Sprintf("e2e|%s|%d|%d|%d|%d|%s", backend, capN, n, bucket(int64(len(x.got))), len(hist), strings.Join(keys, ",")))
+	c.NonTrivial(fmt.Sprintf("%s|%s|%d|%d|%d|%d|%s|%s|%d", stream, backend, capN, n, bucket(int64(len(x.got))), bucket(int64(replayed)), strings.Join(keys, ","), strings.Join(fk, ","), minInt(x.nPart, 2)))
 }
